@@ -427,6 +427,8 @@ type c13ValGen struct {
 	nearMis bool
 	overlap bool
 	budget  int // remaining file leaves
+	// plainOnly: every leaf is an existing regular file inside the pipestance (replays of named witnesses)
+	plainOnly bool
 }
 
 func (g *c13ValGen) tag(t string) { g.tags[t] = true }
@@ -453,6 +455,9 @@ func (g *c13ValGen) newDir(dir, name string) string {
 func (g *c13ValGen) leaf(name string, isPath bool) *c13J {
 	g.budget--
 	r := g.rng.Intn(100)
+	if g.plainOnly {
+		r = 0
+	}
 	if isPath && r < 45 && r >= 20 {
 		r = 45 // more directories for `path`
 	}
@@ -600,7 +605,7 @@ func (g *c13ValGen) scalar(mro string) *c13J {
 }
 
 func (g *c13ValGen) value(t *c13Ty, name string) *c13J {
-	if g.rng.Intn(30) == 0 {
+	if !g.plainOnly && g.rng.Intn(30) == 0 {
 		g.tag("null")
 		return c13Null
 	}
@@ -1104,6 +1109,10 @@ func runC13(c *Ctx) {
 	}()
 	r.note("model dimAware (regenerated from moveOutArrayDir) = %s", c.Drv.Ask("C13.dimaware"))
 
+	if os.Getenv("C13_MAPPED_CASE") != "" {
+		c13MappedStream(c, r)
+		return
+	}
 	// corpus first
 	c13Corpus(c, r)
 
@@ -1122,6 +1131,9 @@ func runC13(c *Ctx) {
 	}
 
 	r.note("direct stream: %d cases in %.1fs", nDirect, time.Since(t0).Seconds())
+	t0 = time.Now()
+	c13MappedStream(c, r)
+	r.note("mapped-keys stream (real Fork.postProcess): %.1fs", time.Since(t0).Seconds())
 	t0 = time.Now()
 	c13TierA(c, r)
 	r.note("tier A stream: %.1fs", time.Since(t0).Seconds())
